@@ -60,6 +60,32 @@ def main(tier, seed):
             nviol += 1
             if nviol <= 3:
                 rep.violation(("semi-supervised" if semi else "supervised") + " predict: " + msg, it.desc(), key="predict_position:sup")
+    # ---- sparse count features (many exact zeros) under per-coordinate ratio metrics: predictions must not drift with
+    #      the number of earlier distance evaluations on the same training rows / query arrays
+    from opfython.models.supervised import SupervisedOPF
+    NS = 40 if tier == "quick" else 800
+    for i in range(NS):
+        metric = rng.choice(["canberra", "clark", "divergence", "vicis_wave_hedges", "vicis_symmetric1", "soergel", "kulczynski"])
+        n, dim = rng.randint(6, 12), rng.randint(3, 6)
+        X = np.array([[float(rng.choice([0, 0, 0, 1, 2, 3])) for _ in range(dim)] for _ in range(n)])
+        Y = np.array([j % 2 for j in range(n)])
+        Xq = np.array([[float(rng.choice([0, 0, 1, 2])) for _ in range(dim)] for _ in range(6)])
+        opf = SupervisedOPF(distance=metric)
+        try:
+            opf.fit(X, Y)
+            first = [int(v) for v in opf.predict(Xq)]
+            second = [int(v) for v in opf.predict(Xq)]
+            third = [int(v) for v in opf.predict(Xq[::-1])][::-1]
+            singles = [int(opf.predict(Xq[j:j + 1])[0]) for j in range(len(Xq))]
+        except Exception:   # noqa
+            continue
+        stats["sup"] += 1; stats["queries"] += 4 * len(Xq)
+        rep.count_case(("sparse", metric, X.tobytes(), Xq.tobytes()), True)
+        if not (first == second == third == singles):
+            nviol += 1
+            if nviol <= 3:
+                rep.violation("supervised predict (%s, sparse counts): the same query rows are labelled %r, then %r, reversed batch %r, one by one %r" % (metric, first, second, third, singles),
+                              dict(metric=metric, X=X.tolist(), Y=Y.tolist(), Xq=Xq.tolist()), key="predict_position:sup")
     bad = supcheck.corr(rep, "correspondence Model/Sup.predict_batch vs predict on batches with duplicates and training rows", "C09sup", terms, expect, insts)
     rep.corr["sup_batches"] = dict(cases=len(terms), disagreements=None if bad is None else len(bad))
     # ---- KNN-supervised / unsupervised
